@@ -243,34 +243,7 @@ pub fn generate(g: &mut Gen, thorough: bool) {
             }
         }
     }
-    // the value a sexagesimal spelling stands for, computed here from its fields
-    for d in ["0", "-0", "12", "-12", "179", "0.5", "-0.25"] {
-        for m in ["", "0", "30", "59.5"] {
-            for sec in ["", "0", "36", "59.999"] {
-                for hemi in ["", "N", "S", "E", "W", "n", "s", "e", "w"] {
-                    if m.is_empty() && !sec.is_empty() {
-                        continue;
-                    }
-                    let mut text = d.to_string();
-                    if !m.is_empty() {
-                        text += &format!(":{m}");
-                    }
-                    if !sec.is_empty() {
-                        text += &format!(":{sec}");
-                    }
-                    text += hemi;
-                    let dv: f64 = d.trim_start_matches('-').parse().unwrap();
-                    let mv: f64 = if m.is_empty() { 0.0 } else { m.parse().unwrap() };
-                    let sv: f64 = if sec.is_empty() { 0.0 } else { sec.parse().unwrap() };
-                    let neg = d.starts_with('-') != "SsWw".contains(hemi) && !(hemi.is_empty() && !d.starts_with('-'));
-                    let neg = if hemi.is_empty() { d.starts_with('-') } else { neg };
-                    let mag = dv + (mv + sv / 60.0) / 60.0;
-                    let expected = if neg { -mag } else { mag };
-                    g.push(format!("S_C16T\t{}\t{}", crate::wire::escape(&text), crate::wire::fbits(expected)), "oracle-sexagesimal", true);
-                }
-            }
-        }
-    }
+    sexagesimal_cases(g);
     // every documented parameter of every operator is read (one definition per operator, all its parameters given)
     for def in super::c09::EVERY_PARAMETER {
         g.push(format!("S_C16G\t{}", crate::wire::escape(def)), "oracle-every-parameter-is-read", true);
@@ -322,5 +295,37 @@ pub fn generate(g: &mut Gen, thorough: bool) {
             "typed-real-random",
             true,
         );
+    }
+}
+
+/// sexagesimal spellings and the values they stand for
+pub fn sexagesimal_cases(g: &mut Gen) {
+    // the value a sexagesimal spelling stands for, computed here from its fields
+    for d in ["0", "-0", "12", "-12", "179", "0.5", "-0.25"] {
+        for m in ["", "0", "30", "59.5"] {
+            for sec in ["", "0", "36", "59.999"] {
+                for hemi in ["", "N", "S", "E", "W", "n", "s", "e", "w"] {
+                    if m.is_empty() && !sec.is_empty() {
+                        continue;
+                    }
+                    let mut text = d.to_string();
+                    if !m.is_empty() {
+                        text += &format!(":{m}");
+                    }
+                    if !sec.is_empty() {
+                        text += &format!(":{sec}");
+                    }
+                    text += hemi;
+                    let dv: f64 = d.trim_start_matches('-').parse().unwrap();
+                    let mv: f64 = if m.is_empty() { 0.0 } else { m.parse().unwrap() };
+                    let sv: f64 = if sec.is_empty() { 0.0 } else { sec.parse().unwrap() };
+                    let neg = d.starts_with('-') != "SsWw".contains(hemi) && !(hemi.is_empty() && !d.starts_with('-'));
+                    let neg = if hemi.is_empty() { d.starts_with('-') } else { neg };
+                    let mag = dv + (mv + sv / 60.0) / 60.0;
+                    let expected = if neg { -mag } else { mag };
+                    g.push(format!("S_C16T\t{}\t{}", crate::wire::escape(&text), crate::wire::fbits(expected)), "oracle-sexagesimal", true);
+                }
+            }
+        }
     }
 }
